@@ -143,7 +143,7 @@ def worker(args):
             sub.violation(presigs[pre], {}, ''); return
         small = sx.shrink(hist, lambda h: (judge(env, fixture, h) or (None,))[0] == r[0])
         r2 = judge(env, fixture, small) or r
-        sig = '%s|%s|%s' % (rel, sx.kinds(small), r2[0])
+        sig = '%s|%s|%s' % (rel, sx.kinds(small) if 'RecursionError' not in r2[0] else 'ownership-cycle', r2[0])
         presigs[pre] = sig
         sub.violation(sig, dict(model=name, fixture=fixture, history=small, detail=r2[1]), 'after %r: %s' % (small, r2[0]))
     ex.run(1 if tier == 'quick' else 2, visit, order=sx.seeded_order(seed), last_only=lambda op: op[0] in DELETES)
